@@ -26,6 +26,8 @@ DISJOINT = NetworkXGraphStorageDisjoint._NetworkXGraphStorageDisjoint__NetworkXG
 TS = 'fim.graph.networkx_property_graph:NetworkXGraphStorage.__NetworkXGraphStorage.'
 TD = 'fim.graph.networkx_property_graph_disjoint:NetworkXGraphStorageDisjoint.__NetworkXGraphStorage.'
 
+GUARDED = ('start_id', 'graph_node_ids')       # state that must only be read / written inside the critical section
+
 METHODS = {
     'add_graph': ('graph_id', 'graph'),
     'add_graph_direct': ('graph_id', 'graph'),
@@ -82,7 +84,16 @@ def make_balance_contracts():
                         return (not lk.held) and lk.acquires == lk.releases and not lk.errors
                     return not lk.locked()
 
+                @staticmethod
+                def field_hook(I, obj, name, kind):
+                    """ghost check: the id counters are touched only while the lock is held (Owicki-Gries style guard)"""
+                    if name in GUARDED and isinstance(obj, PObj) and 'lock' in obj.d.e:
+                        lk = obj.d.e['lock'][1]
+                        if isinstance(lk, LockVal) and not lk.held:
+                            I.ctx.ghost.setdefault('unguarded', []).append(f'{kind} of {name} while the lock is not held')
+
                 ensures = {
+                    'lock.guards_the_id_counters': lambda pre, post: not getattr(post, 'ghost', {}).get('unguarded'),
                     'lock.released_exactly_once_on_every_path': lambda pre, post: Balance._balanced(pre, post),
                     'lock.no_error_raised_by_the_lock': lambda pre, post: not (
                         post.exc is not None and isinstance(post.exc, PObj) and post.exc.cls is RuntimeError
@@ -110,6 +121,11 @@ def replay_on_real_store(flavour, method, ctx):
     import fim.graph.networkx_property_graph as shared_mod
     import fim.graph.networkx_property_graph_disjoint as disj_mod
     cls = SHARED if flavour == 'shared' else DISJOINT
+    if ctx is not None and ctx.ghost.get('unguarded'):
+        # a data race needs a second thread at a particular point: no sequential input shows it
+        return False, dict(store=flavour, method=method, unguarded_accesses=ctx.ghost['unguarded'],
+                           note='the id counter is accessed outside the critical section: two threads can be handed the same '
+                                'internal identifier (needs a preemption between the release and this access)')
     fault = ctx.fault_at[1] if ctx is not None and ctx.fault_at else None
     tried = []
 
